@@ -29,12 +29,13 @@ for d in sorted(glob.glob(os.path.join(ROOT, "seeded", "C*"))):
     sh("git -C /repo apply %s" % patch)
     t0 = time.time()
     try:
-        rc, out = sh("./check %s" % m["property"], cwd=ROOT)
+        only = os.environ.get("ROUND_ONLY")
+        rc, out = sh("VERIF_EVIDENCE_DIR=/tmp/seed-evidence ./check %s%s" % (m["property"], (" --only " + only) if only else ""), cwd=ROOT)
     finally:
         sh("git -C /repo checkout -- .")
     assert sh("git -C /repo status --porcelain")[1].strip() == "", "/repo not restored"
     sigs = [l.strip().split()[1] for l in out.splitlines() if l.strip().startswith("violated:")]
-    m["on_repo"] = dict(head=head, applies=True, command="git -C /repo apply patch.diff && ./check %s ; git -C /repo checkout -- ." % m["property"], exit_code=rc, caught=(rc == 1), signatures=sigs[:8], wall_s=round(time.time() - t0, 1))
+    m["on_repo"] = dict(head=head, applies=True, command="git -C /repo apply patch.diff && ./check %s%s ; git -C /repo checkout -- ." % (m["property"], (" --only " + os.environ["ROUND_ONLY"]) if os.environ.get("ROUND_ONLY") else ""), exit_code=rc, caught=(rc == 1), signatures=sigs[:8], wall_s=round(time.time() - t0, 1))
     json.dump(m, open(mp, "w"), indent=1)
     print(sid, "rc=%d" % rc, sigs[:3])
     sys.stdout.flush()
